@@ -14,7 +14,9 @@ Crashed(g) == "crash" \in DOMAIN g
 \* decoding yields exactly what is written (whole document), ...
 C03Whole(c, g) == g.werr = "" /\ g.whole = ExpectedWhole(c.doc)
 \* ... the streaming scanner yields the objects in document order, ...
-C03Stream(c, g) == g.serr = "" /\ g.stream = ExpectedStream(c.doc)
+\* (the harness keeps every object the scanner hands out and reads them after the scan has ended; smut = an object
+\* read differently at yield time and at the end, i.e. the scanner changed an object it had already yielded)
+C03Stream(c, g) == g.serr = "" /\ ~g.smut /\ g.stream = ExpectedStream(c.doc)
 \* ... and they are the same objects as the whole-document ones, per kind in order (recorded against recorded).
 \* osmChange: per block kind, the stream cut at the document's block boundaries.
 BlockStart(d, i) == LET RECURSIVE S(_) S(k) == IF k = 0 THEN 0 ELSE S(k - 1) + Len(d.blocks[k].items) IN S(i - 1)
@@ -44,7 +46,7 @@ Norm(T, v) ==
 Want(c) == Norm(c.root, Fill(c.root, c.v))
 \* an action's inlined element: Action.OSM is rebuilt from the one element, i.e. an OSM holding only that
 C04Un(c, g) == g.merr = "" /\ g.uerr = "" /\ g.un # << >> /\ g.un[1] = Want(c)
-C04Scan(c, g) == g.merr = "" /\ g.serr = "" /\ \A kind \in ObjectKinds : StreamKind(g.scan, kind) = ValueKind(c.root, Want(c), kind)
+C04Scan(c, g) == g.merr = "" /\ g.serr = "" /\ ~g.smut /\ \A kind \in ObjectKinds : StreamKind(g.scan, kind) = ValueKind(c.root, Want(c), kind)
 C04Names(c, g) == g.tree # << >> /\ NamesOK(c.root, g.tree[1])
 
 \* known finding #5: the top-level bounds of an OSM (also inside osmChange blocks and old/new) is written with the Go type
